@@ -168,6 +168,29 @@ def check(ctx, report):
         se = kw.get('skip_empty')
         if not (isinstance(se, ast.Constant) and se.value is True):
             report.add('C18.R2', nvl.construct + '@skip-empty', 'empty list elements must be skipped (skip_empty=True)')
+        # the elements are read by NameValuePair (the one place that takes optional double quotes off a value, RFC 9110 5.6.6): as the
+        # item class of the list primitive, or called on each element by the method / the helpers of the class it uses
+        report.count('C18.R2')
+        bodies, seen_, work_ = [], set(), [nvl]
+        while work_:
+            g_ = work_.pop()
+            if id(g_) in seen_:
+                continue
+            seen_.add(id(g_))
+            bodies.append(g_.node)
+            for x_ in ast.walk(g_.node):
+                if isinstance(x_, ast.Call) and isinstance(x_.func, ast.Attribute) and isinstance(x_.func.value, ast.Name) and x_.func.value.id in ('cls', 'self'):
+                    h_ = nvl.cls.resolve(x_.func.attr)
+                    if h_ is not None and not h_.module.external and len(seen_) < 8:
+                        work_.append(h_)
+        as_item_class = any(isinstance(x_, ast.Call) and isinstance(x_.func, ast.Attribute) and x_.func.attr.startswith('parse_') and
+                            any(isinstance(y_, ast.Name) and y_.id == 'NameValuePair' for a_ in list(x_.args) + [k_.value for k_ in x_.keywords]
+                                for y_ in ast.walk(a_)) for b_ in bodies for x_ in ast.walk(b_))
+        parsed_by_call = any(isinstance(x_, ast.Call) and isinstance(x_.func, ast.Attribute) and 'parse' in x_.func.attr and
+                             isinstance(x_.func.value, ast.Name) and x_.func.value.id == 'NameValuePair' for b_ in bodies for x_ in ast.walk(b_))
+        if not (as_item_class or parsed_by_call):
+            report.add('C18.R2', nvl.construct + '@element-parser', 'the elements of a name=value list are not read by NameValuePair: the optional double quotes '
+                       'around a value stay part of it (max-age="31536000" is not max-age=31536000)')
     whitespace_tabulation(ctx, report, spec)
     from ..textlists import string_array_table
     string_array_table(ctx, report, 'C18.R2', 'http')
